@@ -5,32 +5,44 @@ here="$(cd "$(dirname "$0")" && pwd)"
 . "$here/env.sh"
 mkdir -p "$VERIF_ROOT/.build"
 cd "$VERIF_ROOT/mc" || exit 2
+# development only: VERIF_ALT_REPO=<scratch copy of /repo> builds against that copy (seeded changes are tried
+# there while /repo itself is in use by a long run); the registered checks never set it
+MODFILE=""; SCHEDMOD="-modfile=go.sched.mod"
+if [ -n "${VERIF_ALT_REPO:-}" ]; then
+  alt="$VERIF_ROOT/.build/alt${VERIF_BIN_SUFFIX:-}"; mkdir -p "$alt"
+  for m in go.mod go.sched.mod; do
+    sed -e "s#=> /repo\$#=> $VERIF_ALT_REPO#" -e "s#=> \.\./third_party#=> $VERIF_ROOT/third_party#" "$m" > "$alt/$m"
+  done
+  cp go.sum "$alt/go.sum"; cp go.sum "$alt/go.sched.sum" 2>/dev/null
+  [ -f go.sched.sum ] && cp go.sched.sum "$alt/go.sched.sum"
+  MODFILE="-modfile=$alt/go.mod"; SCHEDMOD="-modfile=$alt/go.sched.mod"
+fi
 case "$1" in
   mccheck)
-    ov=$(go run ./cmd/mkoverlay plain "$VERIF_ROOT/.build/ov-plain") || exit 2
-    if ! go build -overlay "$ov" -o "$VERIF_ROOT/.build/mccheck${VERIF_BIN_SUFFIX:-}" ./cmd/mccheck 2>"$VERIF_ROOT/.build/mccheck.err"; then
+    ov=$(go run $MODFILE ./cmd/mkoverlay plain "$VERIF_ROOT/.build/ov-plain") || exit 2
+    if ! go build $MODFILE -overlay "$ov" -o "$VERIF_ROOT/.build/mccheck${VERIF_BIN_SUFFIX:-}" ./cmd/mccheck 2>"$VERIF_ROOT/.build/mccheck.err"; then
       echo "note: build with private-state dump files failed, retrying with -tags nodump (no state merging for statecache/wmpt/logging checks)" >&2
       cat "$VERIF_ROOT/.build/mccheck.err" >&2
-      go build -tags nodump -o "$VERIF_ROOT/.build/mccheck${VERIF_BIN_SUFFIX:-}" ./cmd/mccheck
+      go build $MODFILE -tags nodump -o "$VERIF_ROOT/.build/mccheck${VERIF_BIN_SUFFIX:-}" ./cmd/mccheck
     fi ;;
   mccheck.small)
     # the same binary with the size thresholds BatchSize (256) and maxPruneNodes (1000) set to 2 through the overlay
-    ov=$(VERIF_SMALL=1 go run ./cmd/mkoverlay plain "$VERIF_ROOT/.build/ov-small") || exit 2
-    go build -overlay "$ov" -o "$VERIF_ROOT/.build/mccheck${VERIF_BIN_SUFFIX:-}.small" ./cmd/mccheck ;;
+    ov=$(VERIF_SMALL=1 go run $MODFILE ./cmd/mkoverlay plain "$VERIF_ROOT/.build/ov-small") || exit 2
+    go build $MODFILE -overlay "$ov" -o "$VERIF_ROOT/.build/mccheck${VERIF_BIN_SUFFIX:-}.small" ./cmd/mccheck ;;
   mcsched)
-    ov=$(go run ./cmd/mkoverlay sched "$VERIF_ROOT/.build/ov-sched") || exit 2
-    if ! go build -modfile=go.sched.mod -overlay "$ov" -o "$VERIF_ROOT/.build/mcsched${VERIF_BIN_SUFFIX:-}" ./cmd/mcsched 2>"$VERIF_ROOT/.build/mcsched.err"; then
+    ov=$(go run $MODFILE ./cmd/mkoverlay sched "$VERIF_ROOT/.build/ov-sched") || exit 2
+    if ! go build $SCHEDMOD -overlay "$ov" -o "$VERIF_ROOT/.build/mcsched${VERIF_BIN_SUFFIX:-}" ./cmd/mcsched 2>"$VERIF_ROOT/.build/mcsched.err"; then
       echo "note: build with Touch points failed (an anchor's identifiers changed?), retrying without Touch points: data races are then left to the -race pass" >&2
       cat "$VERIF_ROOT/.build/mcsched.err" >&2
-      ov=$(VERIF_NOTOUCH=1 go run ./cmd/mkoverlay sched "$VERIF_ROOT/.build/ov-sched") || exit 2
-      go build -modfile=go.sched.mod -overlay "$ov" -o "$VERIF_ROOT/.build/mcsched${VERIF_BIN_SUFFIX:-}" ./cmd/mcsched
+      ov=$(VERIF_NOTOUCH=1 go run $MODFILE ./cmd/mkoverlay sched "$VERIF_ROOT/.build/ov-sched") || exit 2
+      go build $SCHEDMOD -overlay "$ov" -o "$VERIF_ROOT/.build/mcsched${VERIF_BIN_SUFFIX:-}" ./cmd/mcsched
     fi ;;
   mcsched.buf4)
     # the same binary with logging.BufferSize = 4 (one constant changed through the overlay)
-    ov=$(VERIF_BUF4=1 go run ./cmd/mkoverlay sched "$VERIF_ROOT/.build/ov-buf4") || exit 2
-    go build -modfile=go.sched.mod -overlay "$ov" -o "$VERIF_ROOT/.build/mcsched${VERIF_BIN_SUFFIX:-}.buf4" ./cmd/mcsched ;;
+    ov=$(VERIF_BUF4=1 go run $MODFILE ./cmd/mkoverlay sched "$VERIF_ROOT/.build/ov-buf4") || exit 2
+    go build $SCHEDMOD -overlay "$ov" -o "$VERIF_ROOT/.build/mcsched${VERIF_BIN_SUFFIX:-}.buf4" ./cmd/mcsched ;;
   mcrace)
-    ov=$(go run ./cmd/mkoverlay plain "$VERIF_ROOT/.build/ov-race") || exit 2
-    CGO_ENABLED=1 go build -race -overlay "$ov" -o "$VERIF_ROOT/.build/mcrace${VERIF_BIN_SUFFIX:-}" ./cmd/mcrace ;;
+    ov=$(go run $MODFILE ./cmd/mkoverlay plain "$VERIF_ROOT/.build/ov-race") || exit 2
+    CGO_ENABLED=1 go build $MODFILE -race -overlay "$ov" -o "$VERIF_ROOT/.build/mcrace${VERIF_BIN_SUFFIX:-}" ./cmd/mcrace ;;
   *) echo "unknown binary $1" >&2; exit 2 ;;
 esac
